@@ -20,7 +20,7 @@ RULE = ('A case is (data set, query): data = 0-4 A rows, 0-6 B rows, 0-3 C rows 
 ASSUMPTIONS = ['live SQLite in-memory', 'reference evaluator vlib/qgen.py (rules and sources: DESIGN.md 7a)',
                'multiplicity judged by the documented automatic-DISTINCT cases only']
 SHARDS = {'quick': 4, 'thorough': 16}
-MIN_EVALS = {'quick': 600, 'thorough': 20000}
+MIN_EVALS = {'quick': 2000, 'thorough': 40000}
 CLASS_FLOORS = {'accepted': 0.6}
 
 ENV_NAMES = ('select', 'count', 'sum', 'min', 'max', 'avg', 'exists', 'coalesce', 'between', 'len', 'abs', 'distinct',
@@ -204,7 +204,7 @@ def check_case(ctx, data, q):
 def run(ctx):
     def t(data, q):
         check_case(ctx, data, q)
-    ctx.run_test(t, dict(data=qgen.datasets(), q=qgen.queries()), max_examples=ctx.scale(400, 5000), name='C01')
+    ctx.run_test(t, dict(data=qgen.datasets(), q=qgen.queries()), max_examples=ctx.scale(1200, 6000), name="C01")
 
 
 def replay(case):
